@@ -647,9 +647,7 @@ func (td BoolMeta) SubViewFromBacking(v *Root, i uint8) BasicView {
 }
 
 func (td BoolMeta) BoolViewFromBitfieldBacking(v *Root, i uint8) (BoolView, error) {
-	if i > 32 {
-		return false, fmt.Errorf("out of range bit lookup in node: index: %d root: %x", i, v)
-	}
+	// a node holds 256 bits: every uint8 index is in range
 	return (v[i>>3]>>(i&7))&1 == 1, nil
 }
 
